@@ -101,7 +101,11 @@ func runC07(c run.Ctx) *core.CaseResult {
 			}
 			ops = append(ops, seq.Op{Kind: "flush"})
 			if i%2 == 1 || r.IntN(3) == 0 {
-				ops = append(ops, seq.Op{Kind: "gci", A: r.IntN(2)}, seq.Op{Kind: "flush"})
+				lim := 0
+				if (c.Index/32)%2 == 1 && r.IntN(2) == 0 {
+					lim = 1 + r.IntN(6) // cycle cut short: a later one resumes in the middle of the file sequence
+				}
+				ops = append(ops, seq.Op{Kind: "gci", A: r.IntN(2), B: lim}, seq.Op{Kind: "flush"})
 			}
 		}
 		ops = append(ops, seq.Op{Kind: "reopen", A: 1, B: 1})
